@@ -1,5 +1,5 @@
 (* Specification side of C03, unbounded part: structured programs made of straight-line statements (SpecLingo.stmt)
-   and  if <expr> then ... [else ...] end if  with any expression as condition, nested to any depth.  A program is a
+   and  if <expr> then ... [else ...] end if  and  repeat while <expr> ... end repeat  with any expression as condition, nested to any depth.  A program is a
    sequence: PNil, a statement followed by the rest, or an if (condition, body, rest).
    Director's scheme for an if: the condition, a conditional forward jump over the body (offset relative to the
    jump's own address), the body; with an else part the then part ends in an unconditional forward jump over it and
@@ -16,7 +16,8 @@ Inductive prog :=
 | PNil
 | PStmt (s : stmt) (rest : prog)
 | PIf (c : expr) (body : prog) (rest : prog)
-| PIfE (c : expr) (body ebody : prog) (rest : prog).
+| PIfE (c : expr) (body ebody : prog) (rest : prog)
+| PWhile (c : expr) (body : prog) (rest : prog).
 
 Fixpoint compile_p (p : prog) : bytes :=
   match p with
@@ -25,6 +26,9 @@ Fixpoint compile_p (p : prog) : bytes :=
   | PIf c a r => compile_e c ++ jz (3 + zlen (compile_p a)) ++ compile_p a ++ compile_p r
   | PIfE c a eb r =>
     compile_e c ++ jz (3 + zlen (compile_p a) + 3) ++ compile_p a ++ jmp (3 + zlen (compile_p eb)) ++ compile_p eb ++ compile_p r
+  | PWhile c a r =>
+    (* the loop: condition, jump past the back jump, body, one-byte back jump to the start of the condition *)
+    compile_e c ++ jz (3 + zlen (compile_p a) + 2) ++ compile_p a ++ [b 84; b (zlen (compile_e c) + 3 + zlen (compile_p a))] ++ compile_p r
   end.
 Fixpoint ninstr_p (p : prog) : nat :=
   match p with
@@ -32,6 +36,7 @@ Fixpoint ninstr_p (p : prog) : nat :=
   | PStmt s r => (ninstr_s s + ninstr_p r)%nat
   | PIf c a r => (ninstr c + (1 + (ninstr_p a + ninstr_p r)))%nat
   | PIfE c a eb r => (ninstr c + (1 + (ninstr_p a + (1 + (ninstr_p eb + ninstr_p r)))))%nat
+  | PWhile c a r => (ninstr c + (1 + (ninstr_p a + (1 + ninstr_p r))))%nat
   end.
 
 Fixpoint wf_p (en : env) (p : prog) : Prop :=
@@ -41,6 +46,8 @@ Fixpoint wf_p (en : env) (p : prog) : Prop :=
   | PIf c a r => wf_e en c /\ a <> PNil /\ 3 + zlen (compile_p a) < 65536 /\ wf_p en a /\ wf_p en r
   | PIfE c a eb r => wf_e en c /\ a <> PNil /\ eb <> PNil /\ 3 + zlen (compile_p a) + 3 < 65536 /\ 3 + zlen (compile_p eb) < 65536 /\
                      wf_p en a /\ wf_p en eb /\ wf_p en r
+  | PWhile c a r => wf_e en c /\ (forall pc, wcond_ok (reify_e en pc c) = true) /\ zlen (compile_e c) + 3 + zlen (compile_p a) < 256 /\
+                    wf_p en a /\ wf_p en r
   end.
 
 (* the statements the stack machine leaves, as positioned items, when the code of p starts at pc *)
@@ -57,7 +64,11 @@ Fixpoint items (en : env) (props : list string) (pc : Z) (p : prog) : list item 
     let jp := pj + 3 + zlen (compile_p a) in
     let je := jp + 3 + zlen (compile_p eb) in
     IIfE pj (reify_e en pc c) (jp + 3) (items en props (pj + 3) a) jp je (items en props (jp + 3) eb) :: items en props je r
+  | PWhile c a r =>
+    let pj := pc + zlen (compile_e c) in
+    let pe := pj + 3 + zlen (compile_p a) in
+    IWhile false pc pj (reify_e en pc c) pe (items en props (pj + 3) a) :: items en props (pe + 2) r
   end.
 
 (* the decompiled program: what the emitted text is printed from *)
-Definition rebuilt (en : env) (props : list string) (pc : Z) (p : prog) : list node := trees (items en props pc p).
+Definition rebuilt (en : env) (props : list string) (pc : Z) (p : prog) : list node := fins (items en props pc p).
